@@ -1065,12 +1065,13 @@ theorem t3_eq (s : St) : ∃ x : St,
              inflight := markAllToRetransmit (if x.cfg.prEnabled then advancePeerAck x else x) } ∧
     x.inflight = s.inflight ∧ x.cumAck = s.cumAck ∧ x.advPeerAck = s.advPeerAck ∧
     x.abandonedMsgs = s.abandonedMsgs ∧ x.allInflightMsgs = s.allInflightMsgs ∧ x.cfg = s.cfg ∧
-    x.willSendForwardTSN = s.willSendForwardTSN ∧ x.established = s.established ∧ x.pending = s.pending := by
+    x.willSendForwardTSN = s.willSendForwardTSN ∧ x.established = s.established ∧ x.pending = s.pending ∧
+    x.nextMsg = s.nextMsg ∧ x.streams = s.streams ∧ x.now = s.now ∧ x.myNextTSN = s.myNextTSN := by
   unfold t3
   simp only
   split
-  · exact ⟨_, rfl, rfl, rfl, rfl, rfl, rfl, rfl, rfl, rfl, rfl⟩
-  · exact ⟨_, rfl, rfl, rfl, rfl, rfl, rfl, rfl, rfl, rfl, rfl⟩
+  · exact ⟨_, rfl, rfl, rfl, rfl, rfl, rfl, rfl, rfl, rfl, rfl, rfl, rfl, rfl, rfl⟩
+  · exact ⟨_, rfl, rfl, rfl, rfl, rfl, rfl, rfl, rfl, rfl, rfl, rfl, rfl, rfl, rfl⟩
 
 theorem t3_adv (s : St) (hs : Seq s) (hsm : s.inflight.length < 2^32) (hpr : s.cfg.prEnabled = true) (h : AdvInv s) : AdvInv (t3 s) := by
   obtain ⟨x, hx, x1, x2, x3, x4, x5, x6, x7, x8, x9⟩ := t3_eq s
@@ -1219,10 +1220,11 @@ theorem init_adv (cfg : Cfg) (tsn peerRwnd : BitVec 32) : AdvInv (init cfg tsn p
 
 theorem advancePeerAck_ab (y : St) : (advancePeerAck y).abandonedMsgs = y.abandonedMsgs ∧ (advancePeerAck y).allInflightMsgs = y.allInflightMsgs ∧
     (advancePeerAck y).inflight = y.inflight ∧ (advancePeerAck y).cumAck = y.cumAck ∧ (advancePeerAck y).established = y.established ∧
-    (advancePeerAck y).pending = y.pending ∧ (advancePeerAck y).cfg = y.cfg := by
+    (advancePeerAck y).pending = y.pending ∧ (advancePeerAck y).cfg = y.cfg ∧ (advancePeerAck y).nextMsg = y.nextMsg ∧
+    (advancePeerAck y).streams = y.streams ∧ (advancePeerAck y).now = y.now ∧ (advancePeerAck y).myNextTSN = y.myNextTSN := by
   obtain ⟨a, b, h⟩ := advancePeerAck_only y
   rw [h]
-  exact ⟨rfl, rfl, rfl, rfl, rfl, rfl, rfl⟩
+  exact ⟨rfl, rfl, rfl, rfl, rfl, rfl, rfl, rfl, rfl, rfl, rfl⟩
 
 theorem prStep_ab (x : St) : (prStep x).abandonedMsgs = x.abandonedMsgs ∧ (prStep x).allInflightMsgs = x.allInflightMsgs := by
   unfold prStep
@@ -1618,5 +1620,66 @@ theorem gather_fwd (s : St) (orc : Oracle) (sel : List Nat) (he : s.established 
           simp only [forwardTSN, g3]
         · cases hf
     · cases hf
+
+/-- the stream list of `createForwardTSN` over a chunk list: one entry per stream that has an ORDERED chunk in the list,
+each entry is the SSN of such a chunk, and (SSNs of a stream within one half-space window) it is the greatest -/
+theorem fwdStreams_spec (L : List Chunk) :
+    ((fwdStreams L []).map (·.1)).Nodup ∧
+    (∀ e ∈ fwdStreams L [], ∃ c ∈ L, c.unordered = false ∧ c.si = e.1 ∧ c.ssn = e.2) ∧
+    (∀ base : BitVec 16 → BitVec 16, (∀ c ∈ L, c.unordered = false → (c.ssn - base c.si).toNat < 2^15) →
+      ∀ c ∈ L, c.unordered = false → ∃ ssn, (c.si, ssn) ∈ fwdStreams L [] ∧ sna16LTE c.ssn ssn = true) := by
+  rw [fwdStreams_eq]
+  refine ⟨upFold_nodup _ _ _ (by simp), ?_, ?_⟩
+  · intro e he
+    rcases upFold_mem _ _ _ e he with h | h
+    · cases h
+    · simp only [List.mem_map, List.mem_filter] at h
+      obtain ⟨c, ⟨hc1, hc2⟩, hc3⟩ := h
+      exact ⟨c, hc1, by simpa using hc2, by rw [← hc3], by rw [← hc3]⟩
+  · intro base hwin c hc hu
+    have hkv : ∀ e ∈ (L.filter (fun c => !c.unordered)).map (fun c => (c.si, c.ssn)), (e.2 - base e.1).toNat < 2^15 := by
+      intro e he
+      simp only [List.mem_map, List.mem_filter] at he
+      obtain ⟨c', ⟨h1, h2⟩, h3⟩ := he
+      rw [← h3]; exact hwin c' h1 (by simpa using h2)
+    have := upFold_max sna16LT (fun k v => (v - base k).toNat < 2^15)
+      (fun k a b ha hb => (sna16_window (base k) a b b ha hb hb).1)
+      (fun k a b c ha hb hc => (sna16_window (base k) a b c ha hb hc).2)
+      ((L.filter (fun c => !c.unordered)).map (fun c => (c.si, c.ssn))) [] [] (by simpa using hkv) (by simp) (by simp)
+      (c.si, c.ssn) (by simp only [List.nil_append, List.mem_map, List.mem_filter]; exact ⟨c, ⟨hc, by simp [hu]⟩, rfl⟩)
+    obtain ⟨v, hv1, hv2⟩ := this
+    refine ⟨v, getv_mem hv1, ?_⟩
+    simp only [sna16LTE, Bool.or_eq_true, beq_iff_eq]
+    exact hv2
+
+/-- likewise for `createIForwardTSN`: keys are (stream, unordered flag), values message identifiers -/
+theorem ifwdStreams_spec (L : List Chunk) :
+    ((ifwdStreams L []).map (·.1)).Nodup ∧
+    (∀ e ∈ ifwdStreams L [], ∃ c ∈ L, (c.si, c.unordered) = e.1 ∧ c.mid = e.2) ∧
+    (∀ base : BitVec 16 × Bool → BitVec 32, (∀ c ∈ L, (c.mid - base (c.si, c.unordered)).toNat < 2^31) →
+      ∀ c ∈ L, ∃ mid, ((c.si, c.unordered), mid) ∈ ifwdStreams L [] ∧ sna32LTE c.mid mid = true) := by
+  rw [ifwdStreams_eq]
+  refine ⟨upFold_nodup _ _ _ (by simp), ?_, ?_⟩
+  · intro e he
+    rcases upFold_mem _ _ _ e he with h | h
+    · cases h
+    · simp only [List.mem_map] at h
+      obtain ⟨c, hc1, hc3⟩ := h
+      exact ⟨c, hc1, by rw [← hc3], by rw [← hc3]⟩
+  · intro base hwin c hc
+    have hkv : ∀ e ∈ L.map (fun c => ((c.si, c.unordered), c.mid)), (e.2 - base e.1).toNat < 2^31 := by
+      intro e he
+      simp only [List.mem_map] at he
+      obtain ⟨c', h1, h3⟩ := he
+      rw [← h3]; exact hwin c' h1
+    have := upFold_max sna32LT (fun k v => (v - base k).toNat < 2^31)
+      (fun k a b ha hb => (sna32_window (base k) a b b ha hb hb).1)
+      (fun k a b c ha hb hc => (sna32_window (base k) a b c ha hb hc).2)
+      (L.map (fun c => ((c.si, c.unordered), c.mid))) [] [] (by simpa using hkv) (by simp) (by simp)
+      ((c.si, c.unordered), c.mid) (by simp only [List.nil_append, List.mem_map]; exact ⟨c, hc, rfl⟩)
+    obtain ⟨v, hv1, hv2⟩ := this
+    refine ⟨v, getv_mem hv1, ?_⟩
+    simp only [sna32LTE, Bool.or_eq_true, beq_iff_eq]
+    exact hv2
 
 end SenderProofs
